@@ -157,6 +157,8 @@ static void c12_run(void) {
 	h_sample("dispatch_time / dispatch_walltime vs 128-bit model at generated clock positions, then no-block waits\n");
 	h_announce();
 	int n = (RC.cfg & CFG_THOROUGH) ? 600 : 300;
+	// the arithmetic is compared exactly with a model that samples the clocks itself: they stand still for that part
+	int clkstep = sim_k.clkread_ns; sim_k.clkread_ns = 0;
 	for (int i = 0; i < n; i++) {
 		if ((i % 10) == 0) set_clock_position();
 		uint64_t base = gen_base12();
@@ -166,6 +168,7 @@ static void c12_run(void) {
 		default: check_time(base, gen_delta12()); break;
 		}
 	}
+	sim_k.clkread_ns = clkstep ? clkstep : (int)(1 + g_rnd() % 97);   // from here on the clocks move with every read
 	// past times do not block: ordinary clock position, real wait paths, simulated time
 	sim_set_clocks(2000ull * NSEC, 5 * NSEC, 1700000000ull * NSEC - 2000ull * NSEC);
 	dispatch_semaphore_t sema = dispatch_semaphore_create(0);
@@ -186,6 +189,19 @@ static void c12_run(void) {
 		noblock++;
 		if (r == 0) h_viol("wait-success", "a wait on an empty semaphore / non-empty group returned 0");
 		if (el > MSEC) h_viol("blocked-on-past-time", "waiting until 0x%lx, already elapsed on the %s clock, blocked for %lu ns of simulated time", (unsigned long)t, cn[d.clock], (unsigned long)el);
+	}
+	// ... and a time that passes while the wait is being set up (a few hundred nanoseconds ahead: the clocks move between
+	// two reads) is past by the time it matters: the wait returns within that margin, it does not wrap into the far future
+	for (int i = 0; i < 12; i++) {
+		uint64_t base = i % 3 == 0 ? 0 : i % 3 == 1 ? T_WALLNOW : T_MONONOW;
+		int64_t delta = (int64_t)(g_rnd() % 400);
+		uint64_t t = dispatch_time(base, delta);
+		uint64_t t0 = sim_now();
+		long r = (i & 4) ? dispatch_semaphore_wait(sema, t) : dispatch_group_wait(grp, t);
+		uint64_t el = sim_now() - t0;
+		noblock++;
+		if (r == 0) h_viol("wait-success", "a wait on an empty semaphore / non-empty group returned 0");
+		if (el > MSEC) h_viol("blocked-on-past-time", "waiting until dispatch_time(%s, %ld ns) blocked for %lu ns of simulated time", i % 3 == 0 ? "DISPATCH_TIME_NOW" : i % 3 == 1 ? "DISPATCH_WALLTIME_NOW" : "the monotonic NOW", (long)delta, (unsigned long)el);
 	}
 	dispatch_group_leave(grp);
 	RES.counters[0] = pure_cases; RES.counters[1] = clock_cases; RES.counters[2] = forever_cases; RES.counters[3] = elapsed_cases; RES.counters[4] = walltime_cases; RES.counters[5] = noblock;
